@@ -219,7 +219,7 @@ PROPS["C13"] = {
 }
 
 PROPS["C05"] = {
-    "families": ["OF"], "ops": "rtrip,rtparse,rtw,rtx,enc,dec", "gen_deps": [], "modules": ["C05", "C05b"],
+    "families": ["OF"], "ops": "rtrip,rtparse,rtw,rtx,enc,dec", "gen_deps": [], "modules": ["C05", "C05b", "C05c"],
     "rule": "rtrip / rtparse: every API-built value (every kind; valid histories incl. bundle-add wrapping any message) is encoded, the bytes are followed by 8 other bytes inside a larger backing array, decoded by the kind's "
             "own decoder (elements) or by openflow13.Parse (top-level messages), and re-encoded: the re-encoding must equal the encoding and the reported size its length; rtx: the same on literal values (correspondence only); "
             "dec: decoders on captured encodings with truncations / corruptions (correspondence). Non-trivial = the value was encoded.",
